@@ -16,6 +16,10 @@ type VarsCase struct {
 	Ambient map[string]string `json:"ambient"` // ambient process environment of the simulated process
 	DotEnv  map[string]string `json:"dotenv"`  // contents of .env next to the spokfile
 	Mode    string            `json:"mode"`    // run | vars
+	// OutVars: variables that are also declared as named outputs — of a task defined before the one whose
+	// commands are checked (OutBefore) or of that task itself. Being an output must not change a value.
+	OutVars   []string `json:"out_vars,omitempty"`
+	OutBefore bool     `json:"out_before,omitempty"`
 }
 
 type varsScen struct{}
@@ -57,6 +61,9 @@ func (varsScen) Gen(r *Rng, cfg GenConfig) any {
 		switch k := r.Intn(10); {
 		case k < 6:
 			v.Kind, v.Args = "str", []string{vaValue(r)}
+			if r.Chance(1, 5) {
+				v.Args = []string{Pick(r, []string{"build/out.txt", "./dist", "out dir/x.bin", "bin", "../sibling/out", "a/b/../c"})}
+			}
 		case k < 8:
 			v.Kind, v.Args = "join", []string{"{PROJ}", Pick(r, []string{"bin", "a/../b", "./x", "out/", "d//e", "link", "link/data.txt", "real/data.txt", "$EDITOR", "${TARGET}/bin", "$NAME.d"})}
 			if r.Chance(1, 2) {
@@ -81,6 +88,13 @@ func (varsScen) Gen(r *Rng, cfg GenConfig) any {
 		if r.Chance(1, 3) {
 			c.DotEnv[n] = "dotenv_" + n
 		}
+	}
+	if len(names) > 0 && r.Chance(1, 4) {
+		c.OutVars = Subset(r, names, 1, 2)
+		if len(c.OutVars) == 0 {
+			c.OutVars = []string{names[0]}
+		}
+		c.OutBefore = r.Chance(2, 3)
 	}
 	lit := func() string {
 		return Pick(r, []string{"", " ", "lit", "a b", "x=", "-", "/", ":", "pre ", " post", "$", "(", "$UNSET_Q"})
@@ -157,6 +171,22 @@ func (varsScen) Exec(w *World, cc any, prop string) *Result {
 	}
 	t.Raw = append(t.Raw, "echo plain text without variables")
 	p.Tasks = []TaskDef{t}
+	if len(c.OutVars) > 0 {
+		var outs []Out
+		for _, n := range c.OutVars {
+			if p0 := (&Program{Vars: c.Vars}); varDefined(p0, n) {
+				outs = append(outs, Out{"named", n})
+			}
+		}
+		if len(outs) > 0 {
+			res.count("probe:variable_also_declared_as_named_output")
+			if c.OutBefore {
+				p.Tasks = []TaskDef{{Name: "BBBBBB", Outs: outs}, t}
+			} else {
+				p.Tasks[0].Outs = outs
+			}
+		}
+	}
 	text := strings.ReplaceAll(p.Render(), "{PROJ}", proj)
 	writeFile(filepath.Join(proj, "spokfile"), text)
 	writeFile(filepath.Join(w.Ctl, "AAAAAA_0"), "true\n")
@@ -307,6 +337,15 @@ func (varsScen) Exec(w *World, cc any, prop string) *Result {
 	return res
 }
 
+func varDefined(p *Program, name string) bool {
+	for _, v := range p.Vars {
+		if v.Name == name {
+			return true
+		}
+	}
+	return false
+}
+
 func valClass(v string) string {
 	c := ""
 	for _, k := range []string{" ", "$", "{", "}", "#"} {
@@ -327,6 +366,9 @@ func (varsScen) Shrinks(cc any) []any {
 		n := cloneJSON(*c)
 		f(&n)
 		out = append(out, &n)
+	}
+	if len(c.OutVars) > 0 {
+		add(func(n *VarsCase) { n.OutVars = nil })
 	}
 	for i := range c.Refs {
 		add(func(n *VarsCase) {
